@@ -321,8 +321,26 @@ class Fn:
         """the unique whole-local definition of l, or None"""
         ds = [x for x in self.defs().get(l, []) if not x[3]]
         if len(ds) == 1:
-            return ds[0]
+            d = ds[0]
+            # a local initialised with a constant whose address is taken mutably (e.g. a flag
+            # captured by a closure) can change behind our back: not a single definition
+            if d[2][0] == "use" and d[2][1][0] == "k" and l in self.mut_borrowed():
+                return None
+            return d
         return None
+
+    def mut_borrowed(self):
+        """locals whose own storage is mutably borrowed (`&mut _l` / `&mut _l.field`)"""
+        if getattr(self, "_mutb", None) is None:
+            mb = set()
+            for blk in self.blocks:
+                for s in blk["s"]:
+                    if s[0] == "=" and s[2][0] in ("ref", "raw") and (s[2][1] == "mut" or "Mut" in str(s[2][1])):
+                        pl = s[2][2]
+                        if "*" not in pl[1]:
+                            mb.add(pl[0])
+            self._mutb = mb
+        return self._mutb
 
     TRANSPARENT = re.compile(
         r"(::Deref>?::deref$|::deref::Deref::deref$|::DerefMut::deref_mut$|::AsRef::as_ref$|"
